@@ -11,13 +11,15 @@ import io
 import json
 import multiprocessing
 import os
+import signal
 import subprocess
+import threading
 import sys
 import time
 import traceback
 from concurrent.futures import ProcessPoolExecutor, as_completed
 
-from sim.core import Chooser, HarnessError, Trace, Violation, canonical_json, h8
+from sim.core import Chooser, HarnessError, SimHang, Trace, Violation, canonical_json, h8
 
 VERIF = os.path.dirname(os.path.dirname(os.path.abspath(__file__)))
 REPLAYS = os.path.join(VERIF, "replays")
@@ -73,11 +75,30 @@ def execute_plan(world, plan, prop, keep_events=False):
     buf = io.StringIO()
     viol = None
     sample = None
+    hang_s = getattr(world, "HANG_S", 40)
+
+    def on_alarm(signum, frame):
+        raise SimHang()
+
+    can_alarm = threading.current_thread() is threading.main_thread()
+    if can_alarm:
+        old_handler = signal.signal(signal.SIGALRM, on_alarm)
+        signal.setitimer(signal.ITIMER_REAL, hang_s)
     with contextlib.redirect_stdout(buf):
         try:
             sample = world.execute(plan, prop, trace)
         except Violation as v:
             viol = v
+        except SimHang:
+            label = getattr(trace, "hang_label", None) or ("after_" + getattr(trace, "last_ev", "start"))
+            viol = Violation(prop, "HANG", label, f"the run did not come back within {hang_s} s of wall-clock time (ordinary runs of this world take well under a second): the library operation '{label}' never returns")
+            if viol.signature in trace.soft:
+                trace.soft_hits[viol.signature] = trace.soft_hits.get(viol.signature, 0) + 1
+                viol = None
+        finally:
+            if can_alarm:
+                signal.setitimer(signal.ITIMER_REAL, 0)
+                signal.signal(signal.SIGALRM, old_handler)
     res = trace.result()
     res["sample"] = sample
     if keep_events:
